@@ -146,6 +146,13 @@ func shortName(key string) string {
 func (x *Exec) callStatic(st *State, fr *Frame, fn *ssa.Function, args []Value, binds []Value, pos token.Pos) []Outcome {
 	key := funcKey(fn)
 	c := x.contractOf(key)
+	if fr.contract != nil && len(fn.Blocks) > 0 {
+		for _, ic := range fr.contract.InlineCalls {
+			if ic == shortName(key) || ic == key || strings.HasSuffix(shortName(key), "."+ic) {
+				c = &FuncContract{Key: key, Inline: true}
+			}
+		}
+	}
 	x.callAsserts(st, fr, key, args, paramNames(fn.Signature, fn), pos)
 	if c != nil && !c.Inline {
 		x.pendingBinds = binds // captured variables of a closure under contract
